@@ -945,7 +945,7 @@ def run(res, tier, seed):
                  "cells; object refs relative/absolute; parameters/returned refs shadowing refs and globals; "
                  "defaults), <= 2 parameters with/without defaults, <= 4 instances each, every argument spelling; "
                  "histories of <= 2 edits exhaustively over the edit alphabet (quick: length 1 exhaustive + length 2 "
-                 "with a core first edit; thorough: length 2 exhaustive with/without evaluation in between + seeded "
+                 "restricted to structural edit kinds, every third pair; thorough: length 2 exhaustive with/without evaluation in between + seeded "
                  "random length 3-4), old handles of instance / child spaces / cells kept across every edit")
     res.rule = ("edit alphabet generated from the current definitions: every space x {new/del/rename/override cells, "
                 "formula change of every defined or derived cells, is_cached/allow_none, ref new/change/del/shadow, "
